@@ -217,6 +217,10 @@ func checkViews(h *Hand, gs *pf.GameState) *vlib.Violation {
 			if hidden(o) {
 				p.HoleCards = o.HoleCards
 				p.Combination = o.Combination
+			} else if p.Idx == v && blankCombination(p.Combination) {
+				// the statement keeps the viewer's own cards; it does not promise
+				// an evaluation of them: shown unchanged or not shown are both fine
+				p.Combination = o.Combination
 			}
 		}
 		if Norm(r) != orig {
@@ -224,6 +228,10 @@ func checkViews(h *Hand, gs *pf.GameState) *vlib.Violation {
 		}
 	}
 	return nil
+}
+
+func blankCombination(c *pf.CombinationInfo) bool {
+	return c == nil || (c.Power == 0 && c.Type == "" && len(c.Cards) == 0)
 }
 
 func viewKind(v int, closed bool) string {
